@@ -1137,6 +1137,13 @@ class Crate:
                 F = same[0]
                 allsigs = [table[k]] + alt.get(k, [])
                 fsig = [F.local_ty(l) for l in range(1, F.argc + 1)] + ["->", F.local_ty(0)]
+                # (the function kept its name, but its out-parameter became a return value: `fn f(s: &mut T, ..)` -> `fn f(s: T, ..) -> T`)
+                if fsig not in allsigs and sig[-1] == "()" and F.argc == len(sig) - 2 and not getattr(F, "out_param_as_return", None):
+                    tys_ = fsig[:-2]
+                    diff_ = [i for i in range(len(tys_)) if tys_[i] != sig[i]]
+                    if len(diff_) == 1 and sig[diff_[0]] == "&mut " + tys_[diff_[0]] and F.local_ty(0) == tys_[diff_[0]]:
+                        F.out_param_as_return = diff_[0] + 1
+                        continue
                 if fsig in allsigs or sum(1 for bl in F.blocks if not bl["cleanup"]) > 6:
                     continue
                 tg = {c.callee.target for c in F.calls if c.callee and not F.blocks[c.bb]["cleanup"] and c.callee.target in self.bodies}
